@@ -367,6 +367,20 @@ class Translator:
             if f in ("math.exp", "math.log", "math.sqrt", "exp" , "log", "sqrt"):
                 self.raising_calls.append((e, x))
             return x.applyfunc(fn) if _is_mat(x) else fn(x)
+        if f in ("np.add", "np.subtract", "np.multiply", "np.divide", "np.true_divide", "numpy.add", "numpy.subtract", "numpy.multiply", "numpy.divide") and len(args) == 2 and set(kw) <= {"out"}:
+            a_, b_ = self.tr(args[0]), self.tr(args[1])
+            opn = f.split(".")[-1]
+            res = _bcast({"add": lambda x, y: x + y, "subtract": lambda x, y: x - y, "multiply": lambda x, y: x * y, "divide": lambda x, y: x / y, "true_divide": lambda x, y: x / y}[opn], a_, b_)
+            if "out" in kw:
+                # the result is ALSO written into the `out` array: from here on that name holds it (an alias of the result)
+                o_ = kw["out"]
+                if isinstance(o_, ast.Name):
+                    self.env[o_.id] = res
+                elif isinstance(o_, ast.Attribute):
+                    self.v.bind(norm(o_), res)
+                else:
+                    raise Unsupported(f"out=`{norm(o_)}`")
+            return res
         if f in ("np.power", "math.pow", "pow") and len(args) == 2:
             return _bcast(lambda x, y: x**y, self.tr(args[0]), self.tr(args[1]))
         if f in ("min", "np.minimum") and len(args) == 2:
